@@ -311,3 +311,36 @@ def gen(rng, tier):
             ts = [(float(rng.randint(1, 5)), [(X, float(rng.randint(1, 3)))]), (2.0, [])]
             poly = enc_ipoly(ts, rng.choice([['y'], [], ['xx']]))
             yield Case(mk_line(poly, x0, cap, tol, mode), 'malformed-unbound/i', None)
+
+
+# ---- extraction cross-check: the same cases evaluated inside Coq by vm_compute
+from tools import xenc
+COQ_IMPORTS = 'Base.XEnc Model.Poly Model.Solvers'
+XCHECK_N = 200
+
+
+def coq_term(case):
+    # crc thinning below XCHECK_N so that every eligible case is taken, whatever its position in the stream
+    if not xenc.keep(case, 1 if case.cls.startswith('fixed') else 12):
+        return None
+    t = xenc.Toks(case.line)
+    if t.word() != 'nr':
+        return None
+    ty = t.word()
+    if ty == 's':
+        f, p = 's_nrm', xenc.cq_spoly_rec(t)
+    elif ty == 'i':
+        f, p = 'i_nrm', xenc.cq_ipoly_rec(t)
+    else:
+        return None
+    x0 = xenc.coq_float(t.fl()) + '%float'
+    cap = t.int()
+    tol = xenc.coq_float(t.fl()) + '%float'
+    mode = t.int() == 1
+    if not 0 <= cap <= 5000:
+        return None
+    return '%s (@%s float FNum %s %s %d%%nat %s %s)' % (xenc.CQ_ENC_SOLVER, f, p, x0, cap, tol, xenc.cq_bool(mode))
+
+
+def encode_result(case, model_line):
+    return xenc.enc_solver_line(model_line)
